@@ -317,6 +317,7 @@ class Engine:
         self.max_visits = max_visits
         self.max_steps = max_steps
         self.max_paths = max_paths
+        self.discr_events = None
         self.max_depth = max_depth
         self.models = dict(MODELS)
         if models:
@@ -635,7 +636,11 @@ class Engine:
             return mk_un(rv["op"], a, rv["aty"])
         if k == "discr":
             v = self.read(st, self.place_loc(st, fr, rv["p"]))
-            return discr_of(v, destty)
+            d = discr_of(v, destty)
+            if self.discr_events and self.discr_events(rv["p"].get("ty") or ""):
+                # opt-in: a discriminant read of a type of interest is visible in the event stream (position of the test)
+                st.events.append({"k": "discr", "ty": rv["p"].get("ty"), "val": v, "d": d, "fn": fr["fn"], "bb": fr["bb"], "pc": len(st.pc)})
+            return d
         if k == "agg":
             ops = tuple(self.operand(st, fr, o) for o in rv["ops"])
             ak = rv["ak"]
